@@ -5131,7 +5131,10 @@ class State:
                     self.select_runout_count()
 
             if Automation.HOLE_CARDS_SHOWING_OR_MUCKING in self.automations:
-                while self.showdown_indices:
+                while (
+                        self.showdown_indices
+                        and self.can_show_or_muck_hole_cards()
+                ):
                     self.show_or_muck_hole_cards()
 
     def _end_showdown(self) -> None:
